@@ -45,3 +45,19 @@ ST1_GLOBAL_RANDOM = {
 # ST3: effects under a diagnostic guard that are accepted (key = "<function>:<effect>")
 ST3_DIAG_EFFECTS = {
 }
+
+# RN6: reads of a list's size value that are bookkeeping, not constraint semantics (function -> reason)
+RN6_BOOKKEEPING = {
+    "ConstraintForeachModel.build": "never runs on the solve path: ArrayConstraintBuilder replaces every foreach by its expansion (a ConstraintOverrideModel, "
+                                    "whose build() builds only the replacement) before anything is built, and that expansion unrolls over len(field_l)",
+    "FieldArrayModel._set_size": "compares the stored size with the new one to decide whether caches must be invalidated; it then writes the size",
+}
+
+# LW8: expression kinds for which inheriting ModelVisitor's handler is correct in XExprEvaluator
+LW8_INHERITED_OK = {
+    "visit_expr_dynamic": "delegates to the single expanded expression e.expr(), whose own handler computes the value",
+    "visit_expr_array_sum": "default forwards to visit_expr_dynamic (single expanded expression)",
+    "visit_expr_array_product": "default forwards to visit_expr_dynamic (single expanded expression)",
+    "visit_expr_range": "ranges occur only below visit_expr_in, which XExprEvaluator overrides and never descends into",
+    "visit_expr_rangelist": "range lists occur only below visit_expr_in, which XExprEvaluator overrides and never descends into",
+}
